@@ -14,10 +14,18 @@ MCInit == Init /\ n = 0 /\ h = <<>>
 Obs == [ev |-> ev', auth |-> [i \in Ids |-> sess'[i] > now'], pauth |-> [i \in Ids |-> pauth'[i] > now'],
         assoc |-> assoc', now |-> now']
 
-MCNext == /\ n < Depth
-          /\ n' = n + 1
-          /\ Next
-          /\ h' = IF GEN THEN Append(h, Obs) ELSE h
+Bump == n < Depth /\ n' = n + 1 /\ h' = IF GEN THEN Append(h, Obs) ELSE h
+\* one named action per public call, so that TLC's coverage shows every one of them was taken
+MCRegister  == (\E k \in Keys, i \in Ids, l \in Lifes : Register(k, i, l)) /\ Bump
+MCAdvance   == (\E d \in {1, 2} : Advance(d)) /\ Bump
+MCPurge     == (Purge) /\ Bump
+MCHandshake == (\E a \in Addrs, i \in Ids : Handshake(a, i)) /\ Bump
+MCDataIn    == (\E a \in Addrs, i \in Ids : DataIn(a, i)) /\ Bump
+MCForged    == (\E a \in Addrs : Forged(a)) /\ Bump
+MCDataOut   == (\E a \in Addrs : DataOut(a)) /\ Bump
+MCTimer     == (Timer) /\ Bump
+MCTimerDrop == (\E a \in Addrs : TimerDrop(a)) /\ Bump
+MCNext == MCRegister \/ MCAdvance \/ MCPurge \/ MCHandshake \/ MCDataIn \/ MCForged \/ MCDataOut \/ MCTimer \/ MCTimerDrop
 MCSpec == MCInit /\ [][MCNext]_<<vars, n, h>>
 
 MCView == <<now, assoc, sess, tun, cli, pkey, pauth, ev, n>>
